@@ -93,7 +93,7 @@ static int visit_cb(void *e, void *p)
     e_check_priv(p);
     cb_count++;
     ev_add("%d", id_of_el(e));
-    return (cb_stop && cb_count == cb_stop) ? 100 + cb_stop : 0;
+    return (cb_stop && cb_count == cb_stop) ? e_stopval(cb_stop) : 0;
 }
 static void clear_cb(void *e, void *p)
 {
